@@ -106,7 +106,9 @@ def _roundtrip(tracks, w, fmt, d, case):
             ekeys = [k for k in f.edge_features if any(k in g0.edges[e] and g0.edges[e][k] is not None for e in g0.edges)]
             nmap = {"time": f.time_key, "pos": axes}
             for k in nkeys:
-                nmap[k] = k
+                # the corresponding mapping: standard keys for the track / lineage ids
+                std = "track_id" if k == f.tracklet_key else ("lineage_id" if k == f.lineage_key else k)
+                nmap[std] = k
             has_seg = tracks.segmentation is not None
             computed = {"pos", "area", "ellipse_axis_radii", "circularity", "perimeter"}
             load_n = {k: False for k in nkeys if k not in (f.tracklet_key, f.lineage_key) and not (not has_seg and k in computed)}
@@ -122,8 +124,8 @@ def _roundtrip(tracks, w, fmt, d, case):
             cmp(before, _basic(back), "basic")
             lk = f.lineage_key
             if lk is not None:
-                cmp(_partition(tracks, lk), _partition(back, lk), "lineage-partition")
-            cmp(_node_feats(tracks, list(load_n)), _node_feats(back, list(load_n)), "node-features")
+                cmp(_partition(tracks, lk), _partition(back, back.features.lineage_key), "lineage-partition")
+            cmp(_node_feats(tracks, list(load_n)), _node_feats(back, list(load_n)), "node-features")  # custom / regionprops keys keep their names
             cmp(_edge_feats(tracks, ekeys), _edge_feats(back, ekeys), "edge-features")
             if has_seg:
                 a, b = np.asarray(tracks.segmentation), np.asarray(back.segmentation)
